@@ -512,6 +512,17 @@ func (in *vInst) act(e *vEdge) string {
 	c := in.c
 	switch e.Kind {
 	case "reap":
+		// The age of a record that is not dead or left plays no part in reaping (a suspicion may
+		// well last longer than GossipToTheDeadTime): they are backdated.
+		{
+			m.nodeLock.Lock()
+			for _, n := range m.nodes {
+				if !n.DeadOrLeft() {
+					n.StateChange = n.StateChange.Add(-100 * m.config.GossipToTheDeadTime)
+				}
+			}
+			m.nodeLock.Unlock()
+		}
 		m.resetNodes()
 	case "udpalive":
 		cl := e.Claim
